@@ -22,7 +22,7 @@ from vloop import EOF, Livelock
 PROP = 'C09'
 W = 64          # channel window used by the scenarios
 
-SCRATCH = '/dev/shm/asyncssh-verif-c09'
+SCRATCH = '/dev/shm/asyncssh-verif-c09-%d' % os.getpid()       # unique per check run (workers are forked later)
 
 
 # ------------------------------------------------------------------ server behaviours
